@@ -178,7 +178,11 @@ def corpus():
                     ('REQ', b'GET ftp://h/ HTTP/1.1\r\n\r\n'), ('REQ', b'GET http://a@b@c/ HTTP/1.1\r\n\r\n'),
                     ('REQ', b'GET http://[::1]:80/ HTTP/1.1\r\n\r\n'), ('REQ', b'GET http://h:+8_0/ HTTP/1.1\r\n\r\n'),
                     ('RES', b'HTTP/1.0 200 OK\r\n\r\nclose-delimited body'),
-                    ('REQ', b'GET http://\xff:1:2/ HTTP/1.1\r\n\r\n')]:
+                    ('REQ', b'GET http://\xff:1:2/ HTTP/1.1\r\n\r\n'),
+                    # empty method (fixed D31: invalid request line), leading blank line, two spaces
+                    ('REQ', b' http://h/ HTTP/1.1\r\nHost: h\r\n\r\n'), ('REQ', b' h:443 HTTP/1.1\r\n\r\n'),
+                    ('REQ', b'  HTTP/1.1\r\n\r\n'), ('REQ', b'\r\nGET / HTTP/1.1\r\n\r\n'),
+                    ('REQ', b' / \r\n\r\n')]:
         cs.append(_case('parse', ty, [raw], False))
         cs.append(_case('parse', ty, [raw[:len(raw) // 2], raw[len(raw) // 2:]], False))
     return cs
